@@ -53,6 +53,10 @@ def contracts():
     from contracts import C08, X_ctor
     cs += common.shared(C08, ['core.arg_val', 'core._ArgValuator.mode'])
     cs += common.shared(X_ctor, ['core._ArgValuator.__init__', 'matching.Match.__init__'])
+    # boolean combinators and negation used inside patterns decide as their C10 contracts say
+    from contracts import C10
+    cs += common.shared(C10, ['matching.Not.glomit', 'matching.And._glomit', 'matching.Or._glomit', 'matching._Bool.glomit', 'matching._Bool.__init__'])
+    cs += common.shared(X_ctor, ['matching.Not.__init__'])
     return cs
 
 
